@@ -251,6 +251,19 @@ func c12Sequence(cr catRoute, l *core.Local) (first string) {
 				l.Evals++
 				l.Transitions++
 				l.Traces++
+				if (k+pass)%2 == 0 {
+					// a build that is refused (no route of that name) although it came with a value for every
+					// bind: what it was given is no business of the builds that follow
+					leak := []string{"withOptional", "true"}
+					for _, b := range binds {
+						leak = append(leak, b, "LEAK")
+					}
+					func() {
+						defer func() { _ = recover() }()
+						_ = f.URLPath("no-route-of-this-name", leak...)
+					}()
+					l.Transitions++
+				}
 				want := cr.Ref.BuildURL(vals, wo == "true")
 				var got string
 				pan := func() (pv interface{}) {
